@@ -25,7 +25,8 @@ def expansion_names():
     if rc != 0 or "VPMARK" not in out:
         return []
     text = out[out.rfind("VPMARK") + 6:]
-    return [n for n in sorted(set(re.findall(r"[A-Za-z_]\w*", text))) if n not in C_WORDS and not n.startswith("__")][:30]
+    return [n for n in sorted(set(re.findall(r"[A-Za-z_]\w*", text))) if n not in C_WORDS and not n.startswith("_") and not n.endswith("_")
+            and not n.lower().startswith(("rand31_", "rf_", "librfn_"))][:30]
 
 
 def run(run):
